@@ -55,7 +55,11 @@ struct CfgCommon
 	enum { hasWait = 1, canPeek = 1, ordered = 0 };
 	// model comparator on model keys (ordered configs): true if a must be dispatched before b
 	static bool before(int, int) { return false; }
+	// comparators that look at the event's ARGUMENTS instead of its key (byArg = 1): model order by event id
+	enum { byArg = 0 };
+	static bool beforeArg(int, int) { return false; }
 };
+template <typename Cfg> inline bool modelBefore(int ka, int ea, int kb, int eb) { return Cfg::byArg ? Cfg::beforeArg(ea, eb) : Cfg::before(ka, kb); }
 
 struct QC0 : CfgCommon
 {
@@ -202,6 +206,27 @@ struct QC9 : CfgCommon
 	static void queued(const Q::QueuedEvent & e, ArgPack & p) { if(e.event != std::get<0>(e.arguments)) p.push(-99); p.push(std::get<0>(e.arguments)); p.push(fpOf(std::get<1>(e.arguments))); }
 	static int key(int k) { return KI(k); }
 };
+// the comparator of the ordered list reads the event's ARGUMENTS (a priority carried by the payload), not its key: events of one
+// key have different priorities, events of different keys may have the same
+struct CmpByPayloadPrio
+{
+	static int prio(int eid) { return eid % 3; }
+	template <typename T> bool operator() (const T & a, const T & b) const { return prio(std::get<1>(a.arguments).id()) > prio(std::get<1>(b.arguments).id()); }
+};
+struct PolOrderedByArg { template <typename Item> using QueueList = eventpp::OrderedQueueList<Item, CmpByPayloadPrio>; };
+struct QC10 : QC0
+{
+	enum { ordered = 1, byArg = 1 };
+	typedef eventpp::EventQueue<int, void(int, const TPayload &), PolOrderedByArg> Q;
+	static const char * name() { return "EventQueue<int,void(int,const TPayload&)> OrderedQueueList, comparator on the payload argument (priority = id % 3, descending)"; }
+	static bool beforeArg(int ea, int eb) { return CmpByPayloadPrio::prio(ea) > CmpByPayloadPrio::prio(eb); }
+	static void enqueue(Q & q, int k, int eid, int, uint32_t form) {
+		if(form % 2 == 0) { TPayload p(eid); q.enqueue(KI(k), p); }
+		else q.enqueue(KI(k), TPayload(eid));
+	}
+	static void dispatch(Q & q, int k, int eid, int) { TPayload p(eid); q.dispatch(KI(k), p); }
+	static void queued(const Q::QueuedEvent & e, ArgPack & p) { if(e.event != std::get<0>(e.arguments)) p.push(-99); p.push(std::get<0>(e.arguments)); p.push(fpOf(std::get<1>(e.arguments))); }
+};
 // what queued() must produce for an event
 template <typename Cfg> inline void expectQueued(ArgPack & p, int k, int eid, int val) { Cfg::expect(p, k, eid, val); }
 template <> inline void expectQueued<QC5>(ArgPack & p, int k, int eid, int val) { p.push(KI(k)); p.push(eid); p.push(val); }
@@ -318,7 +343,7 @@ struct World : CallbackSink
 	void insertPending(QM & m, int eid) {
 		if(! Cfg::ordered) { m.pending.push_back(eid); return; }
 		std::deque<int>::iterator it = m.pending.begin();
-		while(it != m.pending.end() && ! Cfg::before(evs[eid].k, evs[*it].k)) ++it; // after every element that is not greater
+		while(it != m.pending.end() && ! modelBefore<Cfg>(evs[eid].k, eid, evs[*it].k, *it)) ++it; // after every element that is not greater
 		m.pending.insert(it, eid);
 	}
 	void putBack(QM & m, const std::vector<int> & declined) {
@@ -326,7 +351,7 @@ struct World : CallbackSink
 		std::vector<int> all(declined.begin(), declined.end());
 		all.insert(all.end(), m.pending.begin(), m.pending.end());
 		if(Cfg::ordered) {
-			struct Less { const std::vector<Ev> * evs; bool operator() (int a, int b) const { return Cfg::before((*evs)[a].k, (*evs)[b].k); } };
+			struct Less { const std::vector<Ev> * evs; bool operator() (int a, int b) const { return modelBefore<Cfg>((*evs)[a].k, a, (*evs)[b].k, b); } };
 			Less l; l.evs = &evs;
 			std::stable_sort(all.begin(), all.end(), l);
 		}
@@ -502,7 +527,7 @@ struct World : CallbackSink
 		if(Cfg::ordered && (f.kind == PK_PROCESS || f.kind == PK_IF || f.kind == PK_UNTIL)) {
 			for(size_t i = 1; i < f.dispatchedOrder.size(); ++i) {
 				const int a = f.dispatchedOrder[i - 1], b = f.dispatchedOrder[i];
-				if(Cfg::before(evs[b].k, evs[a].k) || (! Cfg::before(evs[a].k, evs[b].k) && b < a)) {
+				if(modelBefore<Cfg>(evs[b].k, b, evs[a].k, a) || (! modelBefore<Cfg>(evs[a].k, a, evs[b].k, b) && b < a)) {
 					fail("ordered:dispatch-order-within-call", evStr(a) + " dispatched before " + evStr(b));
 					return;
 				}
@@ -943,9 +968,9 @@ template <bool Enabled, typename Cfg>
 static typename std::enable_if<! Enabled>::type runCfgIf(const QMode &, Rng &, uint64_t, int) {}
 static void skipCase() { --ctx().casesRun; }
 
-enum { NCFG = 10 };
+enum { NCFG = 11 };
 #ifndef VF_CFG_MASK
-#define VF_CFG_MASK 0x77f
+#define VF_CFG_MASK 0xf7f
 #endif
 // C20: the same program under a family that differs only in policies.  hasWait = 0 for every member so that the
 // generated operations are the same (waitFor does not compile for the single-threaded and SpinLock policies).
@@ -993,13 +1018,14 @@ static void runCase(uint64_t caseNo, Rng & rng)
 	long long only = ctx().optInt("cfg", -1);
 	int cfg;
 	if(only >= 0) cfg = (int)only;
-	else if(ctx().mode == "c13") cfg = 3 + (int)(caseNo % 2);
+	else if(ctx().mode == "c13") { static const int oc[] = { 3, 4, 10 }; cfg = oc[caseNo % 3]; }
 	else cfg = (int)(caseNo % NCFG);
 #define VF_CFG(n) case n: if((VF_CFG_MASK >> n) & 1) { runCfgIf<((VF_CFG_MASK >> n) & 1) != 0, QC##n>(mode, rng, caseNo, n); } else { skipCase(); } break;
 	switch(cfg) {
 	VF_CFG(0) VF_CFG(1) VF_CFG(2) VF_CFG(3) VF_CFG(4) VF_CFG(5) VF_CFG(6)
 	case 7: if((VF_CFG_MASK >> 8) & 1) { runCfgIf<((VF_CFG_MASK >> 8) & 1) != 0, QC7>(mode, rng, caseNo, 7); } else { skipCase(); } break; // bit 7 is the C20 family
 	case 8: if((VF_CFG_MASK >> 9) & 1) { runCfgIf<((VF_CFG_MASK >> 9) & 1) != 0, QC8>(mode, rng, caseNo, 8); } else { skipCase(); } break;
+	case 10: if((VF_CFG_MASK >> 11) & 1) { runCfgIf<((VF_CFG_MASK >> 11) & 1) != 0, QC10>(mode, rng, caseNo, 10); } else { skipCase(); } break;
 	case 9: if((VF_CFG_MASK >> 10) & 1) { runCfgIf<((VF_CFG_MASK >> 10) & 1) != 0, QC9>(mode, rng, caseNo, 9); } else { skipCase(); } break;
 	default: skipCase(); break;
 	}
